@@ -23,7 +23,18 @@ class BQLSemantics:
         return decimal.Decimal(value)
 
     def date(self, value):
-        return datetime.datetime.strptime(value, '%Y-%m-%d').date()
+        try:
+            return datetime.datetime.strptime(value, '%Y-%m-%d').date()
+        except ValueError:
+            # The text looks like a date but it is not a valid calendar
+            # date. Report a syntax error at the literal. Raising a TatSu
+            # parse failure here would instead make the parser backtrack
+            # and read the text as a subtraction of integers.
+            endpos = self._ctx.tokenizer.pos
+            pos = endpos - len(value)
+            tokenizer = self._ctx.tokenizer
+            line = tokenizer.line_info(pos).line
+            raise ParseError(tatsu.infos.ParseInfo(tokenizer, 'date', pos, endpos, line, [])) from None
 
     def string(self, value):
         return value[1:-1]
